@@ -103,7 +103,7 @@ SPEC = dict(
     id="C02",
     group="scan",
     props_file="C02.v",
-    more_props=[("C02Source.v", "LMScan.C02Source")],
+    more_props=[("C02Source.v", "LMScan.C02Source"), ("C02Total.v", "LMScan.C02Total")],
     translate=scan_skel.translate,
     module="LMScan.C02",
     harness_bin="scan",
